@@ -10,17 +10,21 @@ Per system (dqueue, loadbalancer, proxy, shcounter, gcounter, shopcart, nestedcr
            specification surface here as TLC errors. Witness runs (expected violations) show that the
            antecedents of implications are reachable (proxy).
  binding   the generated archetypes of systems/<sys>/<sys>.go run over spec-state env resources
-           (harness/internal/mpexec + sysdefs): (a) the state graph reached with the real archetype code from the
-           initial state (fresh context per step, every choice resolution; complete on the small instances, a BFS
-           prefix where the graph is infinite), validated as edge-covering walks; (b) seeded executions under the
-           real MPCalContext.Run behind the scheduler gate on larger instances. The recorded real-code states are
-           taken as they are (P-level mode) and TLC evaluates every invariant in every one of them, the history
-           variables following HStep. A Go-side assertion failure / panic is a violation (go-error).
+           (harness/internal/mpexec + sysdefs), per instance of the plan: (a) the state graph reached with the real
+           archetype code from the initial state (fresh context per step, every choice resolution; complete on the
+           small instances, a BFS prefix where the graph is infinite), turned into edge-covering walks (cover_walks);
+           (b) seeded executions under the real MPCalContext.Run behind the scheduler gate. The recorded real-code
+           states are taken as they are (P-level mode) and ONE TLC run per instance evaluates every invariant in every
+           one of them, the history variables following HStep (delta_trace_module: step records carry only what
+           changed, values in record/tuple syntax; the first state in both forms, compared by TLC).
+           A Go-side assertion failure / panic is a violation (go-error).
  verdicts  a real-code state that violates an invariant -> VIOLATION (or KNOWN-FINDING); a design-level
            counterexample alone is never a verdict: the invariant is dropped from that design run, and unless the
            generated code reproduces the violation the run is INCONCLUSIVE.
 
-The plans (instance sizes, bounds, runs) are the "c16" section of /verif/systems/<name>.json.
+The plans are the "c16" section of /verif/systems/<name>.json: per tier {"design": [{n, args, constraint, witness, workers}],
+"go": [{n, args, consts_override, bfs: {max_states, max_walk_states, walk_len}, random: {runs, steps, policy}, witness, chunks}]}.
+--replay <file> re-runs the system, tier and seed recorded in a replay file.
 VERIF_SYSTEMS=a,b restricts the run; VERIF_PAR sets the number of parallel jobs (default 8).
 """
 import concurrent.futures
